@@ -16,7 +16,7 @@ async def make_app(loop, version, source_routing=False):
     return app, ezsp, gw, ncp
 
 
-async def settle(loop, n=400):
+async def settle(loop, n=200000):
     for _ in range(n):
         await asyncio.sleep(0)
         if not loop._ready:
